@@ -51,30 +51,15 @@ Print Assumptions C09_unique_if_injective.
 (** Unconditional uniqueness is FALSE of the faithful model: a compiled,
     valid one-block recipe with outputs "a b" and "a-b" writes the id
     [recipe-a-b] twice, and both links carry that target (finding F8). *)
-Open Scope string_scope.
-Definition f8_sub1 : node := SubRecipe (Ingredient [PStr (s "x")] None) [[PStr (s "a b")]] false.
-Definition f8_sub2 : node := SubRecipe (Ingredient [PStr (s "y")] None) [[PStr (s "a-b")]] false.
-Definition f8_page : page :=
-  [[[f8_sub1; f8_sub2;
-     Step [PStr (s "mix")] [Reference f8_sub1 0 (AProp prop_all); Reference f8_sub2 0 (AProp prop_all)]]]].
-
 Theorem C09_unique_refuted :
   exists p l hs, Forall (fun blocks => recipe_ok blocks = true) p /\ page_valid p /\
                  page_ids p = Ok l /\ page_hrefs p = Ok hs /\ ~ NoDup (map fst l) /\
                  hs = [s "#recipe-a-b"; s "#recipe-a-b"].
-Proof.
-  exists f8_page. eexists. eexists. split; [|split; [|split; [|split; [|split]]]].
-  - repeat constructor.
-  - repeat constructor; cbn; try (left; reflexivity); try (right; left; reflexivity);
-      eexists; eexists; eexists; (split; [reflexivity | cbn; Lia.lia]).
-  - vm_compute. reflexivity.
-  - vm_compute. reflexivity.
-  - intro H. inversion H as [|x l' Hx _]; subst. apply Hx. left. reflexivity.
-  - reflexivity.
-Qed.
+Proof. exact unique_refuted. Qed.
 Print Assumptions C09_unique_refuted.
 
 (** ** Non-vacuity *)
+Open Scope string_scope.
 Example C09_ex_prefix : prefix_of 1 = s "recipe-" /\ prefix_of 2 = s "recipe2-" /\ prefix_of 12 = s "recipe12-".
 Proof. vm_compute. repeat split; reflexivity. Qed.
 
